@@ -27,7 +27,7 @@ fn main() {
             let mut cases = 0usize;
             for n in [1u64, 2, 3, 7, 20] {
                 // capacity up front: a zero-sized element cannot be re-hashed to its own hash
-                let mut t: hashbrown::HashTable<(), Ledger> = hashbrown::HashTable::with_capacity_in(32, Ledger);
+                let mut t: hashbrown::HashTable<(), Ledger> = hashbrown::HashTable::with_capacity_in(32, Ledger::fresh());
                 for h in 1..=n {
                     t.insert_unique(h << 57 | h, (), |_| unreachable!());
                 }
